@@ -343,7 +343,7 @@ func c14Form(c *core.Ctx, e c14Emitter, v map[string]string, baseline string, ba
 	}
 	for _, in := range f.Inputs {
 		if in.Attrs["name"] == e.relayField {
-			if r, ok := v["relay"]; ok && (r != "" || e.name != "middleware-post-page") && in.Attrs["value"] != htmlNorm(toValidUTF8(r)) && in.Attrs["value"] != htmlNorm(r) {
+			if r, ok := v["relay"]; ok && (r != "" || e.name != "middleware-post-page") && htmlNorm(in.Attrs["value"]) != htmlNorm(toValidUTF8(r)) && htmlNorm(in.Attrs["value"]) != htmlNorm(r) { // line breaks compared modulo the HTML parser's CR/CRLF -> LF (an emitter may also preserve them with character references)
 				bad("relay-value", fmt.Sprintf("RelayState field %q, input %q", truncate(in.Attrs["value"], 200), truncate(r, 200)))
 				return
 			}
@@ -351,7 +351,7 @@ func c14Form(c *core.Ctx, e c14Emitter, v map[string]string, baseline string, ba
 	}
 	if t, ok := v["toast"]; ok {
 		want := htmlNorm(toValidUTF8(t))
-		if !strings.Contains(pg.Text, want) && !strings.Contains(pg.Text, htmlNorm(t)) {
+		if !strings.Contains(htmlNorm(pg.Text), want) && !strings.Contains(htmlNorm(pg.Text), htmlNorm(t)) {
 			bad("toast-text", fmt.Sprintf("toast text not found verbatim as inert text; page text %q", truncate(pg.Text, 200)))
 			return
 		}
